@@ -20,7 +20,7 @@ def full_probe(mode, cache, keys, sris):
 def run(ctx):
     rng = ctx.rng
     modes = drv.QUICK_MODES if ctx.quick else drv.ALL_MODES
-    nh = 80 if ctx.quick else 2500
+    nh = 250 if ctx.quick else 5000
     ctx.rule = ("seeded histories of 20-100 steps over 6-12 keys (hostile + random, some never written) and 3-5 "
                 "distinct contents shared between keys, mixing writes with remove / remove_hash / remove_fully / "
                 "clear through sync and async entry points; after every removal every key (metadata, read) and "
